@@ -373,6 +373,8 @@ def stream_hull(ctx: Ctx) -> Stream:
 			sources.append((mp, f.read()))
 	cases = []
 	broken: list[dict[str, Any]] = []
+	only_filtered = [0]
+	empty_metas = [0]
 	for label, src in sources:
 		app.source = src
 		# the parser completes a last line without line feed (parser.py `__load_source`); lex and measure the same text
@@ -441,8 +443,16 @@ def stream_hull(ctx: Ctx) -> Stream:
 		while stack:
 			t = stack.pop()
 			if type(t) is lark.Tree:
+				below = [c for c in t.children if type(c) is lark.Token or (type(c) is lark.Tree and c._meta is not None and not c._meta.empty)]
 				if t._meta is not None and not t._meta.empty:
 					trees_.append(t)
+					if not below:
+						only_filtered[0] += 1  # `pass`, `[]`, `True` …: the whole interval consists of filtered tokens
+				elif below:
+					# `meta.empty` must mean "consumed no token": nothing positioned may hang below
+					broken.append({'case': label, 'assumption': 'a tree with an empty meta holds no token and no positioned tree', 'real': f'{t.data} has {len(below)} positioned children'})
+				else:
+					empty_metas[0] += 1
 				stack.extend(t.children)
 		for t in (trees_ if len(trees_) <= ctx.scale(120, 300) else rng.sample(trees_, ctx.scale(120, 300))):
 			m = t._meta
@@ -465,7 +475,9 @@ def stream_hull(ctx: Ctx) -> Stream:
 	st = common.correspond('span-hull', cases, 'span', classify=lambda d: d['kind'])
 	st.disagreements.extend(broken)
 	st.histogram['ops'] = sum(len(c[1]) for c in cases)
-	st.note = "lark's real token stream (parse_interactive().exhaust_lexer() on the text the parser parses, _INDENT/_DEDENT removed) and real metas: token (line, column) vs own arithmetic at the token offsets; offsets left-to-right; every sampled tree's meta vs the span of its token interval [lo, hi) (found by offset, so filtered punctuation/_NEWLINE/end-of-input dedents are inside); the whole tree's interval structure vs the interface hypothesis `ITree.wf`"
+	st.histogram['trees-of-filtered-tokens-only'] = only_filtered[0]
+	st.histogram['trees-with-empty-meta'] = empty_metas[0]
+	st.note = "lark's real token stream (parse_interactive().exhaust_lexer() on the text the parser parses, _INDENT/_DEDENT removed) and real metas: token (line, column) vs own arithmetic at the token offsets; offsets left-to-right; every sampled tree's meta vs the span of its token interval [lo, hi) (found by offset, so filtered punctuation/_NEWLINE/end-of-input dedents are inside); the whole tree's interval structure vs the interface hypothesis `ITree.wf`; a tree with an empty meta holds nothing positioned, trees made of filtered tokens only (pass, [], True …) are counted"
 	return st
 
 
@@ -938,6 +950,11 @@ STATEMENTS = {
 	'quotation_none_end': 'a None end position still raises TypeError in the renderer; None positions no longer occur since fix 46d0462 (search reports any; regression witness corpus/C16/eof-dedent-span.json)',
 	'render_lines': 'in the whole render() text the quotation lines stand as lines of their own directly behind the stack trace lines and before name: message',
 	'loadLine_no_lf': 'the quoted line never contains a line feed',
+	'guard_generated': "the no-position guard of __build_quotation as the translator reads it from the source (disjuncts on the UNSHIFTED span, short-circuit or) is the model's guard",
+	'guard_meaning': 'for integer positions the generated guard is true exactly when begin line < 1 or begin column < 1',
+	'shift_generated': "the shift tuple read from the source is the model's minus-one shift",
+	'buildQuotation_generated': '__build_quotation evaluated from the generated tables in the statement order found in the source (exists, guard, shift) equals the model buildQuotation',
+	'lark_options': 'the parser is built with propagate_positions=True and postlex=PythonIndenter() (read from the source)',
 	'mark_line': 'the loaded line is the bl-th piece of readlines = the bl-th piece of split("\\n"), without line feed, every tab replaced by exactly one blank (length and columns preserved)',
 	'mark_aligned': 'quoted line and mark line are printed behind prefixes of equal width',
 	'pos_mono': '(line, column) computed from the text by own arithmetic is monotone in the character offset',
@@ -953,12 +970,14 @@ STATEMENTS = {
 
 
 def run(ctx: Ctx) -> int:
+	translate_ok, translate_msg = c15.translate(ctx)
 	proof = common.prove(ctx, PROP, leanchecker=ctx.thorough)
 	with ctx.timed('correspondence'):
 		streams = [stream_nodes(ctx), stream_quote(ctx), stream_hull(ctx), stream_collector(ctx)]
 	with ctx.timed('search'):
 		searches = [*search_spans(ctx), search_collector(ctx)]
 	return common.finish(ctx, proof, streams, searches,
+		translate_ok=translate_ok, translate_msg=translate_msg,
 		statements=STATEMENTS,
 		partial={
 			'proved': "tranp's own span handling: span selection, minus-one shift, line loading with tab replacement, caret range (single/multi-line, empty), survival through the cache, the self-hosted collector; nesting/ordering consequences of the hull model",
